@@ -395,7 +395,7 @@ func runC13Edits(c *Ctx) {
 	r := newC13Runner(c)
 	defer r.close()
 	c.P.Rule = "rapid-drawn edit scripts and delimiter soups"
-	c.Rapid("edits", c.Pick(1500, 40000), func(t *rapid.T) {
+	c.Rapid("edits", c.Pick(5000, 60000), func(t *rapid.T) {
 		in, origin := drawEdited(t, files)
 		if msg := r.check(in, origin); msg != "" {
 			c.Fail(mkC13(in, origin), msg)
